@@ -47,6 +47,7 @@ class C04(Check):
                    'requests are attributed to driver calls by the handler task and the request/reply window']
     PROBES = ('c04.must-reject', 'c04.must-accept', 'c04.limit-reject', 'c04.veto-reject', 'c04.readonly',
               'c04.constant', 'c04.unexported', 'c04.partial-struct', 'c04.command', 'c04.cache-untouched-checked',
+              'c04.read-request', 'c04.parameter-in-error-state',
               'c04.limit-moved-by-driver', 'c04.limits-checked-at-driver')
 
     def gen_case(self, rng, tier):
@@ -115,6 +116,27 @@ class C04(Check):
                               payload={k: full[k] for k in keep})
                     op.pop('nodata', None)
                     op.pop('limit', None)
+        if structs and rng.random() < 0.4:
+            # a fault history: the reading of a struct parameter fails now and then (the parameter is then in an
+            # error state), read requests and partial changes of it are mixed into the requests
+            s, p = rng.choice(structs)
+            if p.get('read'):
+                scripts[f'{s["name"]}.read_{p["name"]}'] = [[0, rng.choice(['ok', 'secop', 'exc'])] for _ in range(6)] + [[0, 'secop']]
+                members = list(p['di']['members'])
+                for op in ops:
+                    r = rng.random()
+                    if r < 0.3:
+                        for k in ('nodata', 'limit', 'payload'):
+                            op.pop(k, None)
+                        op.update(kind='read', m=s['name'], name=expname(p['name']) if p.get('export', True) is True else p['export'],
+                                  nodata=True)
+                    elif r < 0.6:
+                        full = dtgen.valid_wire(rng, p['di'], full=True)
+                        keep = rng.sample(members, rng.randrange(1, len(members)))
+                        op.update(kind='change', m=s['name'], name=expname(p['name']) if p.get('export', True) is True else p['export'],
+                                  payload={k: full[k] for k in keep})
+                        op.pop('nodata', None)
+                        op.pop('limit', None)
         shape = {'p_switch': rng.choice([0.1, 0.3]), 'line_gaps': rng.choice([0, 0, 0, 12]),
                  'seg_bias': rng.choice([1.0, 0.7]), 'lat_bias': rng.choice([1.0, 0.7]),
                  'specs': specs, 'scripts': scripts, 'nclients': nclients, 'poll': poll}
@@ -257,6 +279,11 @@ class C04(Check):
             for c in mine:
                 claimed.add(c['seq'])
             kind = op['kind']
+            if kind == 'read':
+                bump('c04.read-request')      # (part of the history only: brings the parameter into / out of its error state)
+                if rep.action == 'error_read':
+                    bump('c04.parameter-in-error-state')
+                continue
             is_err = rep.action == 'error_' + kind
             errcls = rep.data[0] if is_err and wire.is_error_report(rep.data) else None
             what = f'{kind} {op["m"]}:{op["name"]} {json.dumps(op.get("payload")) if not op.get("nodata") else ""}'
